@@ -61,10 +61,21 @@ def check_item(inp):
     return fails
 
 
+def float_syntax_item(item):
+    """RH item whose score part uses number syntax that float() of different interpreters reads differently:
+    underscores (accepted from 3.6 on) or non-ASCII digits (which code points count depends on the Unicode tables)"""
+    if item[0] != "rh" or "/" not in item[2]:
+        return False
+    score = item[2].split("/", 1)[0]
+    return "_" in score or any(ord(c) > 127 for c in score)
+
+
 def _diff_failure(item, want, got, pyver):
     key = None
     if pyver.startswith("2.") and nonascii_answer(item):
         key = "py2.interactive.non-ascii-answer"
+    if float_syntax_item(item):
+        key = "rh.score-syntax-of-float"
     if isinstance(want, dict) and isinstance(got, dict):
         ks = sorted(k for k in set(want) | set(got) if want.get(k) != got.get(k))
         w = dict((k, want.get(k)) for k in ks[:3])
@@ -77,7 +88,9 @@ def _diff_failure(item, want, got, pyver):
 CHECKS = {"item": check_item}
 
 WITNESSES = [["interactive", 2, False, ["\u00a0n", "n", "l", "n", "c", "c", "c"]],
-             ["interactive", 4.0, True, ["n", "l", "n", "n", "n", "h", "h", "h", "h", "h", "n"] + [""] * 17 + ["\u0131", "", "", "", ""]]]
+             ["interactive", 4.0, True, ["n", "l", "n", "n", "n", "h", "h", "h", "h", "h", "n"] + [""] * 17 + ["\u0131", "", "", "", ""]],
+             ["rh", "2", "1_0.0/AV:N/AC:L/Au:N/C:C/I:C/A:C"],
+             ["rh", "3", "\U0001FBF9.8/CVSS:3.1/AV:N/AC:L/PR:N/UI:N/S:U/C:H/I:H/A:H"]]
 
 ASCII_PRINTABLE = "".join(chr(c) for c in range(32, 127))
 
@@ -90,7 +103,7 @@ def corpus_part(n_examples, shard):
 
     @st.composite
     def item(draw):
-        kind = draw(st.sampled_from(("ctor-valid", "ctor-valid", "ctor-mutant", "ctor-text", "ctor-cross", "rh", "rh-bad", "text",
+        kind = draw(st.sampled_from(("ctor-valid", "ctor-valid", "ctor-mutant", "ctor-text", "ctor-cross", "rh", "rh-bad", "rh-near", "rh-float-syntax", "text",
                                      "interactive", "cli-vector", "cli-vector", "cli-interactive")))
         ver = draw(gen.version_key())
         if kind == "ctor-valid":
@@ -104,6 +117,22 @@ def corpus_part(n_examples, shard):
         if kind == "rh":
             v = draw(gen.valid(ver))
             return kind, ["rh", ver, "%.1f/%s" % (draw(st.integers(0, 100)) / 10.0, v)]
+        if kind == "rh-near":
+            # a number that is (nearly) the true base score, written with many digits: float formatting and parsing
+            # details of the interpreter must not decide acceptance
+            from .. import scorecheck
+            v = draw(gen.valid(ver))
+            base = scorecheck.as_floats(scorecheck.expected_scores(ver, v))[0]
+            delta = draw(st.sampled_from((0.0, 1e-14, -1e-14, 2e-15, 1e-13, -1e-13, 1e-12, 1e-9, -1e-7, 1e-5, 0.04)))
+            fmt = draw(st.sampled_from(("%r", "%.17g", "%.15g", "%.13f", "%.14f", "%.12g", "%.20f")))
+            return kind, ["rh", ver, (fmt % (base + delta)) + "/" + v]
+        if kind == "rh-float-syntax":
+            from .. import scorecheck
+            v = draw(gen.valid(ver))
+            base = scorecheck.as_floats(scorecheck.expected_scores(ver, v))[0]
+            t = "%.1f" % base
+            alt = draw(st.sampled_from((t.replace(".", "_."), t[0] + "_" + t[1:], "0_" + t, t + "_0", t.replace(t[0], chr(0x1FBF0 + int(t[0])), 1) if t[0].isdigit() else t)))
+            return kind, ["rh", ver, alt + "/" + v]
         if kind == "rh-bad":
             sc = draw(st.sampled_from(("", "x", "nan", "7.50", " 7.5", "1e1", "10", "-0.0", "7,5", "٣")))
             return kind, ["rh", ver, sc + draw(st.sampled_from(("/", "", "|"))) + draw(gen.mutated(ver))[0]]
@@ -204,7 +233,7 @@ def run(tier, t0):
             # report the smallest differing item per (interpreter, item kind)
             smallest = {}
             for it, w, g in bad:
-                k = (it[0], nonascii_answer(it))
+                k = (it[0], nonascii_answer(it), float_syntax_item(it))
                 if k not in smallest or len(json.dumps(it)) < len(json.dumps(smallest[k][0])):
                     smallest[k] = (it, w, g)
             for it, w, g in smallest.values():
@@ -221,6 +250,6 @@ def run(tier, t0):
                          ["reference interpreter: /venv/bin/python (3.12), tied to the specification by C01-C17",
                           "hash() values and the key order of unsorted dicts are not observables; text-extraction results compared sorted",
                           "interpreters found: %s" % ", ".join(found)],
-                         required=["kind:" + k for k in ("ctor-valid", "ctor-mutant", "ctor-text", "ctor-cross", "rh", "rh-bad", "text", "interactive", "cli-vector", "cli-interactive", "interactive-nonascii")]
+                         required=["kind:" + k for k in ("ctor-valid", "ctor-mutant", "ctor-text", "ctor-cross", "rh", "rh-bad", "rh-near", "rh-float-syntax", "text", "interactive", "cli-vector", "cli-interactive", "interactive-nonascii")]
                          + ["python:" + f for f in found],
                          extra={"interpreters": found + ["venv-3.12 (reference)"], "corpus_items": len(items)})
